@@ -170,6 +170,8 @@ impl CryptoCore {
             extra.write_u8(self.current_key as u8).unwrap();
             extra.write_all(&key.send_nonce.as_bytes()[5..]).unwrap();
         }
+        #[cfg(vpncloud_verif)]
+        verif::log_seal(&key.key, key.send_nonce.as_bytes());
         let nonce = aead::Nonce::assume_unique_for_key(*key.send_nonce.as_bytes());
         let tag = key.key.seal_in_place_separate_tag(nonce, aead::Aad::empty(), data).expect("Failed to encrypt");
         tag_space.clone_from_slice(tag.as_ref());
